@@ -503,10 +503,50 @@ def gen_authz_cases(ctx, thorough):
                     cases.append(f'{server} rust {op} {decision} {unit} {start} {n}')
         for decision in ('allow', 'deny'):
             cases.append(f'{server} ffi rh {decision} {r.choice([1, 9, 247])} {r.choice([0, 4])} {r.choice([1, 3])}')
+    # several sessions with DIFFERENT roles on ONE server, one after the other (certificates of certs/ca2)
+    roles = ['operator', 'viewer', 'mixed']
+    orders = [('operator', 'viewer'), ('viewer', 'operator'), ('operator', 'operator'), ('viewer', 'viewer'), ('mixed', 'operator', 'viewer'),
+              ('viewer', 'mixed', 'operator', 'viewer')]
+    for server in ('ffi', 'rust'):
+        for policy in ('byrole', 'allow'):
+            for oi, order in enumerate(orders + ([tuple(r.choice(roles) for _ in range(r.choice([2, 3, 5]))) for _ in range(4 if thorough else 1)])):
+                sess = []
+                for role in order:
+                    # the fixed orders all WRITE (a stale role would execute a denied write or refuse a permitted one)
+                    op = r.choice(['wr', 'wc', 'wmr']) if oi < len(orders) else r.choice(['wr', 'wc', 'rh', 'rc', 'wmr', 'ri'])
+                    start = r.choice([0, 1, 5])
+                    n = r.choice([1, 2]) if op not in ('wc', 'wr') else r.choice([0, 1, 77])
+                    sess.append(f'{role}:{op}:{start}:{n}')
+                cases.append(f'seq {server} {policy} {r.choice([1, 9, 200])} ' + ','.join(sess))
     return cases
 
 
+ROLE_STRING = {'operator': 'operator', 'viewer': 'viewer', 'mixed': 'Plant-Operator.v2'}
+
+
+def spec_sequence(c):
+    _, server, policy, unit, sess = c.split()
+    out = []
+    for x in sess.split(','):
+        role, op, start, n = x.split(':')
+        start, n = int(start), int(n)
+        count = max(n, 1)
+        rs = ROLE_STRING[role]        # C09_auth_role_is_handshake_role: the role of THIS session's certificate
+        what = f'{OPS[op]}:{unit}:{start}:{rs}' if op in ('wc', 'wr') else f'{OPS[op]}:{unit}:{start},{count}:{rs}'
+        allowed = policy == 'allow' or rs == 'operator' or (rs == 'viewer' and op in READS)
+        if not allowed:
+            res = 'EX:IllegalFunction'
+        elif op in READS:
+            res = 'OK:' + ','.join(f'{i}={0 if op in ("rc", "rd") else i}' for i in range(start, start + count))
+        else:
+            res = 'OK'
+        out.append(f'client={res} auth={what} x1')
+    return ';'.join(out)
+
+
 def spec_authz(c):
+    if c.startswith('seq '):
+        return spec_sequence(c)
     server, client, op, decision, unit, start, n = c.split()
     unit, start, n = int(unit), int(start), int(n)
     count = max(n, 1)
@@ -530,7 +570,7 @@ def spec_authz(c):
 
 
 def check_authz(ctx, cases):
-    impl = ctx.harness('ffi_authz', cases, args=[vlib.REPO], timeout=900)
+    impl = ctx.harness('ffi_authz', cases, args=[vlib.REPO, vlib.ROOT + '/certs'], timeout=900)
     model = model_eval(ctx, ['Base.Show', 'Gen.FfiTables'], 'fun a : ffi_authorization => name_rust_authorization (authorization_from_ffi a)',
                        ['FAU_Allow', 'FAU_Deny'], case_type='ffi_authorization', preamble='Local Open Scope string_scope.')
     bad = 0
@@ -539,6 +579,21 @@ def check_authz(ctx, cases):
         bad += 1
         ctx.violation('authorization-model-differs', f'model maps Allow, Deny to {model}', {'cases': [], 'model': model}, no_failing_input=True)
     for c, i in zip(cases, impl):
+        if c.startswith('seq '):
+            _, server, policy, unit, sess = c.split()
+            k = f'{server}-server.sessions-with-roles.{policy}'
+            classes[k] = classes.get(k, 0) + 1
+            want = spec_authz(c)
+            if i != want:
+                bad += 1
+                gi, wi = i.split(';'), want.split(';')
+                pos = next((j for j in range(min(len(gi), len(wi))) if gi[j] != wi[j]), 0)
+                roles_seq = '>'.join(x.split(':')[0] for x in sess.split(','))
+                if bad <= 4:
+                    ctx.violation(f'authorization-role-of-another-session.{server}-server' if 'auth=' in (gi[pos] if pos < len(gi) else '') else f'authorization-sequence.{server}-server',
+                                  f'TLS+authz {server} server, policy {policy}, sessions {roles_seq}: session #{pos + 1} got `{gi[pos] if pos < len(gi) else i}`, expected `{wi[pos]}` (the role shown to the authorization callback must be the role of THIS session\'s certificate)',
+                                  {'cases': [['authz', c]], 'impl': i, 'spec': want}, no_failing_input=(server == 'rust' and False))
+            continue
         server, client, op, decision = c.split()[:4]
         k = f'{server}-server.{client}-client.{decision}'
         classes[k] = classes.get(k, 0) + 1
